@@ -71,6 +71,7 @@ def install(reg):
                 rec.cls = "TransientVerificationError"
                 rec.ci = I.index.find_class("TransientVerificationError")
                 rec.meta["transient"] = TRUE
+                I.st.emit("attempt_failed", transient=True, what="TransientVerificationError")
                 raise PyRaise(e)
             T.raise_exc(I, "VerificationError", "stabilize.errors")
         return SNone
